@@ -78,4 +78,16 @@ CHECK_TEXT = {
         "level_note": "Fault positions are sampled per session (k ranges over the session's reads/writes); deciding readers react like ShipConnection; passive reader logged only.",
         "design_ref": "DESIGN.md 6 C13",
     },
+    "C17": {
+        "technique": "runtime reference-model monitor: manager state compared with a sequential model after every resolver event; last-notification-equals-final-state check at bubble quiescence",
+        "level_text": "Model equality after every event and a current last report on all explored histories (5k quick / 200k thorough), including bursts with many reports in flight.",
+        "level_note": "The provider/Start wiring is replaced by a hook; scheduling of the report goroutines is whatever the Go scheduler produces under GOMAXPROCS 1 and 4.",
+        "design_ref": "DESIGN.md 6 C17",
+    },
+    "C19": {
+        "technique": "runtime monitor over the call log of a scripted fake Avahi daemon under virtual time (fault sequences x API histories)",
+        "level_text": "All explored daemon-fault x API histories ended with the stated browser/announcement state; no restart after shutdown, no deadlock, no panic.",
+        "level_note": "The daemon is a fake implementing avahi.ServerInterface; name collisions and real D-Bus timing are not modelled.",
+        "design_ref": "DESIGN.md 6 C19",
+    },
 }
